@@ -1,11 +1,13 @@
 import DC.Prelude.Hex
+import DC.Model.BufioIO
 
 /-! Dispatch table of the line-protocol driver. A handler gets the op and its arguments and
 answers `none` if the op is not its own. Unknown ops answer `bad-op` (never a default value). -/
 namespace DC.Driver
 
 def handlers : List (String → List String → Option String) := [
-  fun op args => if op == "ping" then some ("pong " ++ " ".intercalate args) else none
+  fun op args => if op == "ping" then some ("pong " ++ " ".intercalate args) else none,
+  DC.Bufio.IO.handle
 ]
 
 def dispatch (line : String) : String :=
